@@ -554,6 +554,8 @@ def run_sequence(case, rec, twin=None, with_oracles=True):
     reconf = False        # attributes of Target / Vary objects were re-assigned
     no_limits = False     # the user (new limits) or a foreign call left a knob outside its limits: premise of C10 gone
     row_cfg = [copy.deepcopy(case["targets"]) for _ in range(prev_len)]   # target configuration when each row was logged
+    unit_at_log = unit    # were all vary weights 1 during the operation that logged a row (its knobs are then exact)
+    row_unit = [unit for _ in range(prev_len)]
     if with_oracles:
         bad = within_limits(case, [cont[nm] for nm in names])
         if bad:
@@ -574,7 +576,7 @@ def run_sequence(case, rec, twin=None, with_oracles=True):
         if len_before > 0:
             row0 = ([float(v) for v in opt._log["knobs"][0]], s2b(opt._log["vary_active"][0]), s2b(opt._log["target_active"][0]))
         if kind == "clear" and with_oracles:
-            out["C15"] += rows_oracle(opt, cont, names, g, case, unit, iop, row_cfg, reconf)
+            out["C15"] += rows_oracle(opt, cont, names, g, case, unit, iop, row_cfg, reconf, row_unit)
             len_before = 0
         status = "ok"
         try:
@@ -586,6 +588,7 @@ def run_sequence(case, rec, twin=None, with_oracles=True):
         if kind == "clear":
             prev_len = 0
             row_cfg = []
+            row_unit = []
         if kind == "set" and status == "ok":
             reconf = True
             _, what, i_, attr, val = op
@@ -604,6 +607,9 @@ def run_sequence(case, rec, twin=None, with_oracles=True):
         nrows = ob["loglen"]
         while len(row_cfg) < nrows:
             row_cfg.append(copy.deepcopy(case["targets"]))
+        while len(row_unit) < nrows:
+            row_unit.append(unit_at_log)
+        unit_at_log = all(v["weight"] == 1.0 for v in case["vary"])
         if kind in ("set", "foreign"):
             # not an operation of the properties' histories: only what it leaves behind matters
             if within_limits(case, kn_after):
@@ -748,11 +754,11 @@ def run_sequence(case, rec, twin=None, with_oracles=True):
             out["status"] = "ragged"
             break
     if with_oracles and out["status"] in ("ok", "ragged"):
-        out["C15"] += rows_oracle(opt, cont, names, g, case, unit, len(case["ops"]), row_cfg, reconf)
+        out["C15"] += rows_oracle(opt, cont, names, g, case, unit, len(case["ops"]), row_cfg, reconf, row_unit)
     return out, opt
 
 
-def rows_oracle(opt, cont, names, g, case, unit, iop, row_cfg=None, reconf=False):
+def rows_oracle(opt, cont, names, g, case, unit, iop, row_cfg=None, reconf=False, row_unit=None):
     """C15: reload(i) for every row of the current log, then evaluate
     independently.  Works on a deep copy so that the run is not disturbed."""
     fails = []
@@ -772,7 +778,10 @@ def rows_oracle(opt, cont, names, g, case, unit, iop, row_cfg=None, reconf=False
         e2 = o2._err
         c2 = e2.vary[0].container
         g2 = make_function(case["fun"], None, None)
+        unit_now = unit
         for i in range(nrows):
+            # exact comparisons only if the weights were 1 both when the row was logged and now
+            unit = unit_now and (row_unit is None or i >= len(row_unit) or row_unit[i])
             kn_row = [float(v) for v in L["knobs"][i]]
             va_row, ta_row = s2b(L["vary_active"][i]), s2b(L["target_active"][i])
             try:
